@@ -1,6 +1,6 @@
 (* Locks/ProofsHeldLock.v — tracked keys hold locks (ProofsHeld.v): LockKeys, steps, runs *)
 From Coq Require Import List NArith ZArith Bool Lia.
-From Verif Require Import Locks.Model Locks.ProofsBase Locks.ProofsInv Locks.ProofsCommit Locks.ProofsLock Locks.ProofsLockAgg Locks.ProofsLockAll Locks.ProofsHeld.
+From Verif Require Import Locks.Model Locks.ProofsBase Locks.ProofsInv Locks.ProofsCommit Locks.ProofsLock Locks.ProofsLockAgg Locks.ProofsLockAll Locks.ProofsHeld Locks.Contract.
 Import ListNotations.
 Open Scope N_scope.
 
@@ -208,7 +208,6 @@ Proof.
     apply Hdel in Hin. destruct Hin. exact (D x H P1).
 Qed.
 
-Definition failed (o : lock_out) : bool := match lo_res o with Some _ => true | None => false end.
 Definition store_ok (ks : list key) (loie : bool) (o : lock_out) : Prop :=
   lo_res o = None -> forall k, In k ks -> In k (lo_locked o) \/ (loie = true /\ In k (lo_absent o)).
 
@@ -235,11 +234,12 @@ Qed.
 
 Lemma H_lock_pess keys rv ce loie f o s :
   HInv false s -> fresh_tasks s f ->
-  (forall k, In k keys -> ~ In k (flags s)) -> store_ok keys loie o ->
+  (forall k, In k keys -> ~ In k (flags s)) ->
   (forall a, agg s = Some a -> exists k, keys = [k] /\ findk k (cur a) = None) ->
+  store_ok (snd (lock_pess keys rv ce loie f o s)) loie o ->
   HInv (failed o) (fst (lock_pess keys rv ce loie f o s)).
 Proof.
-  intros HI Hts Hnf Hst Hagg. unfold lock_pess.
+  intros HI Hts Hnf Hagg. unfold lock_pess.
   change (set_fu f (if match primary (set_committer true s) with None => true | Some _ => false end
                     then select_primary keys (set_committer true s) else set_committer true s))
     with (prep keys f s).
@@ -254,20 +254,21 @@ Proof.
   - unfold agg_same in P10. destruct (agg s) as [a|] eqn:Ea; [|tauto]. destruct P10 as (A1 & A2 & A3).
     destruct (Hagg a eq_refl) as (k & Hk & Hnc). subst keys.
     rewrite filter_agg_single.
-    assert (Hrpc : forall c : bool, HInv (failed o) (lock_rpc [k] [k] assigned rv ce loie f o (if c then ka_reset s4 else s4))).
-    { intros c. apply H_rpc; auto.
+    assert (Hrpc : forall c : bool, store_ok [k] loie o ->
+                   HInv (failed o) (lock_rpc [k] [k] assigned rv ce loie f o (if c then ka_reset s4 else s4))).
+    { intros c Hst. apply H_rpc; auto.
       - destruct c; [apply H_ka_reset|]; auto.
       - destruct c; auto. destruct (ka_ops_fields s4 ka_reset) as (_&_&_&_&_&_&_&_&K9&_); auto.
         unfold fresh_tasks. rewrite K9. auto.
       - destruct c; auto. destruct (ka_ops_fields s4 ka_reset) as (_&K2&_); auto. rewrite K2. auto. }
     destruct (findk k (prev a4)) as [e|] eqn:Ep.
     + destruct (f <? e_lwc e) eqn:El.
-      * simpl. rewrite set_agg_same; auto. apply HInv_any; auto.
+      * simpl. intros _. rewrite set_agg_same; auto. apply HInv_any; auto.
       * destruct (if negb (aprim a4) || opt_eqb (alastpk a4) (apk a4) then if lo_expired o then None else try_skip e rv ce else None) as [e'|] eqn:Esk.
-        -- simpl. apply HInv_any. apply H_skip with e; auto.
+        -- simpl. intros _. apply HInv_any. apply H_skip with e; auto.
         -- simpl. rewrite set_agg_same; auto.
     + simpl. rewrite set_agg_same; auto.
-  - simpl. apply H_rpc; auto.
+  - simpl. intros Hst. apply H_rpc; auto.
 Qed.
 
 Lemma need_lock_notflag b s k : HInv b s -> need_lock s k = true -> ~ In k (flags s).
@@ -294,28 +295,27 @@ Proof.
 Qed.
 
 Lemma H_lock_keys ks rv ce loie f o s :
-  HInv false s -> fresh_ts s f -> store_ok ks loie o ->
+  HInv false s -> fresh_ts s f -> store_ok (snd (lock_keys_full ks rv ce loie f o s)) loie o ->
   HInv (failed o) (lock_keys ks rv ce loie f o s).
 Proof.
-  intros HI Hf Hst. unfold lock_keys, lock_keys_full.
+  intros HI Hf. unfold lock_keys, lock_keys_full.
   destruct (H_exit_agg ks s f HI Hf) as [HI1 Hts1].
   assert (Hm1 : forall a, agg (exit_agg ks s) = Some a -> many ks = false).
   { intros a. unfold exit_agg. destruct (agg s) as [a0|] eqn:Ea; [|intros E; rewrite Ea in E; discriminate]. destruct (many ks); auto.
     pose proof (agg_done_view s a0 Ea) as AV. cbv zeta in AV. destruct AV as (_ & _ & _ & _ & E5 & _).
     unfold cpv in E5. intros E. rewrite E in E5. discriminate. }
   set (s1 := exit_agg ks s) in *.
-  destruct (negb (pess s1) && match agg s1 with Some _ => true | None => false end); [apply HInv_any; exact HI1|].
-  destruct (early_exists s1 ks); [apply HInv_any; exact HI1|].
-  destruct (filter (need_lock s1) ks) as [|k0 r0] eqn:Ek; [apply HInv_any; exact HI1|]. rewrite <- Ek.
-  destruct (loie && negb rv); [apply HInv_any; exact HI1|].
-  destruct (loie && (negb (committer s1) || match primary s1 with None => true | Some _ => false end) && many (filter (need_lock s1) ks)); [apply HInv_any; exact HI1|].
+  destruct (negb (pess s1) && match agg s1 with Some _ => true | None => false end); [intros _; apply HInv_any; exact HI1|].
+  destruct (early_exists s1 ks); [intros _; apply HInv_any; exact HI1|].
+  destruct (filter (need_lock s1) ks) as [|k0 r0] eqn:Ek; [intros _; apply HInv_any; exact HI1|]. rewrite <- Ek.
+  destruct (loie && negb rv); [intros _; apply HInv_any; exact HI1|].
+  destruct (loie && (negb (committer s1) || match primary s1 with None => true | Some _ => false end) && many (filter (need_lock s1) ks)); [intros _; apply HInv_any; exact HI1|].
   assert (Hkeys : forall k, In k (dedup_sort (filter (need_lock s1) ks)) -> In k ks /\ need_lock s1 k = true).
   { intros k Hk. apply (proj1 (dedup_sort_In _ _)) in Hk. apply (proj1 (filter_In _ _ _)) in Hk. auto. }
   destruct HI1 as [Hp1 HV1]. destruct Hf as (Hf0 & _). rewrite Hp1. apply N.ltb_lt in Hf0. rewrite Hf0. cbn [andb].
   apply H_lock_pess; auto.
   - split; auto.
   - intros k Hk. apply Hkeys in Hk. eapply need_lock_notflag; [split; eauto|tauto].
-  - intros Hr k Hk. apply Hst; auto. apply Hkeys in Hk. tauto.
   - intros a Ha. pose proof (Hm1 a Ha) as Hm. apply many_false_cases in Hm.
     destruct Hm as [Hm|(k & Hm)]; rewrite Hm in *; [simpl in Ek; discriminate|].
     simpl in Ek. simpl. destruct (need_lock s1 k) eqn:En; [|discriminate].
@@ -325,20 +325,12 @@ Proof.
 Qed.
 
 (* ---- runs ---- *)
-Definition in_agg (s : st) : bool := match agg s with Some _ => true | None => false end.
-(* blocked = a LockKeys call failed inside the running aggressive-locking attempt *)
-Definition next_blocked (b : bool) (s : st) (e : ev) : bool :=
-  match e with
-  | ELock _ _ _ _ _ o => failed o && in_agg (step s e)
-  | EAggRetry | EAggCancel | EAggDone | ECommit _ | ERollback | ERollbackLost _ => false
-  | _ => b
-  end.
 (* what the caller and the store owe on top of [wf_ev]: no LockKeys while blocked; a fresh for-update ts (greater than
    every ts used so far, hence than the ts of every pending rollback); the store reports success only if it locked every
-   key of the call (or found it absent under lock-only-if-exists) *)
+   key it was asked to lock (or found it absent under lock-only-if-exists) *)
 Definition held_contract (b : bool) (s : st) (e : ev) : Prop :=
   match e with
-  | ELock ks _ _ loie f o => b = false /\ fresh_ts s f /\ store_ok ks loie o
+  | ELock ks rv ce loie f o => b = false /\ fresh_ts s f /\ store_ok (snd (lock_keys_full ks rv ce loie f o s)) loie o
   | _ => True
   end.
 Fixpoint wf_run_held (b : bool) (s : st) (evs : list ev) : Prop :=
@@ -430,4 +422,32 @@ Proof.
   destruct (agg s) as [a|]; [|destruct Hk as [Hk|[_ Hk]]; discriminate].
   destruct (H3 _ _ eq_refl) as (A & B & _).
   destruct Hk as [Hk|[Hb Hk]]; [apply A|apply B; auto]; apply memk_In; auto.
+Qed.
+
+(* the executable contract of Contract.v implies the one the theorem assumes *)
+Lemma held_contractb_sound b s e : held_contractb b s e = true -> held_contract b s e.
+Proof.
+  destruct e; simpl; auto. intros H.
+  apply andb_true_iff in H. destruct H as [H H3]. apply andb_true_iff in H. destruct H as [H1 H2].
+  split; [destruct b; auto; discriminate|]. split.
+  - unfold fresh_tsb in H2. apply andb_true_iff in H2. destruct H2 as [H2 Ha]. apply andb_true_iff in H2. destruct H2 as [H0 Ht].
+    split; [apply N.ltb_lt; auto|]. split.
+    + intros ks' f' Hin. rewrite forallb_forall in Ht. specialize (Ht _ Hin). simpl in Ht. apply N.ltb_lt; auto.
+    + intros a Ea. rewrite Ea in Ha. apply N.ltb_lt; auto.
+  - unfold store_okb, store_ok in *. intros Hr. rewrite Hr in H3. rewrite forallb_forall in H3.
+    intros k Hk. specialize (H3 k Hk). apply orb_true_iff in H3. destruct H3 as [H3|H3].
+    + left. apply memk_In; auto.
+    + right. apply andb_true_iff in H3. destruct H3. split; auto. apply memk_In; auto.
+Qed.
+
+Fixpoint wf_run_heldb (b : bool) (s : st) (evs : list ev) : bool :=
+  match evs with
+  | [] => true
+  | e :: r => held_contractb b s e && wf_run_heldb (next_blocked b s e) (step s e) r
+  end.
+Lemma wf_run_heldb_sound b s evs : wf_run s evs -> wf_run_heldb b s evs = true -> wf_run_held b s evs.
+Proof.
+  revert b s. induction evs as [|e r IH]; simpl; intros b s Hw H; auto.
+  destruct Hw as [W1 W2]. apply andb_true_iff in H. destruct H as [H1 H2].
+  split; auto. split; [apply held_contractb_sound; auto|]. apply IH; auto.
 Qed.
